@@ -735,6 +735,44 @@ def _targets():
     add('BasicNominator', lambda: vcand.BasicNominator(), _c_nominate)
     add('PartyNominator', lambda: vcand.PartyNominator(), _c_nominate)
     add('PersonNominator', lambda: vcand.PersonNominator(), _c_nominate)
+    # --- transferable vote distributor called DIRECTLY: quota None / name / callable / constant, retainer, elimination step
+    for qn, q in [('noquota', None), ('droopname', 'droop'), ('harecallable', vquota_mod().hare), ('constant', vquota_mod().constant(3))]:
+        add('TransferableVoteDistributor:' + qn, (lambda q=q: vseq.TransferableVoteDistributor(quota_function=q)),
+            (lambda rng, qn=qn: _c_stv_dist(rng, qn)), stv_grid=qn)
+    add('TransferableVoteDistributor:noquota_hare', lambda: vseq.TransferableVoteDistributor(transferer=vtrans.Hare(seed=4), quota_function=None),
+        (lambda rng: _c_stv_dist(rng, 'noquota')), stv_grid='noquota', seed=4)
+    add('TransferableVoteDistributor:retainer',
+        lambda: vseq.TransferableVoteDistributor(retainer=vcore.TieBreaking(vcore.Plurality(), vaux.InputOrderSelector()),
+                                                 accept_quota_equal=False),
+        (lambda rng: _c_stv_dist(rng, 'droopname')))
+    add('TransferableVoteDistributor:step_none', lambda: vseq.TransferableVoteDistributor(eliminate_step=None, mandatory_quota=True),
+        (lambda rng: _c_stv_dist(rng, 'droopname')))
+    add('TransferableVoteDistributor:step2', lambda: vseq.TransferableVoteDistributor(eliminate_step=-2, quota_function=None),
+        (lambda rng: _c_stv_dist(rng, 'noquota')), stv_grid='noquota')
+    # --- constructor values that select another code path and had no target
+    # (AllocatedScoreDistributor(quota_function=None) is annotated Optional but cannot be constructed: KeyError 'unknown quota: None')
+    add('ByConstituency:dict_apportioner', lambda: vcore.ByConstituency(HA(), apportioner={'d0': 2, 'd1': 1, 'd2': 3, 'c0': 1, 'c1': 2, 'c2': 1}),
+        lambda rng: call('evaluate', g_const(rng, lambda r: g_simple(r, frac=False)), **kw_prev_max(rng, {}, nested=True)))
+    add('PreApportioned:dict', lambda: vcore.PreApportioned(vcore.ByConstituency(HA()), {'d0': 2, 'd1': 1, 'd2': 3, 'c0': 1, 'c1': 2, 'c2': 1}),
+        lambda rng: call('evaluate', g_const(rng, lambda r: g_simple(r, frac=False)), **kw_prev_max(rng, {}, nested=True)))
+    add('BiproportionalEvaluator:dict_apportioner',
+        lambda: vprop.BiproportionalEvaluator('d_hondt', apportioner={'d0': 2, 'd1': 2, 'd2': 1}),
+        lambda rng: call('evaluate', _g_biprop(rng), rng.randint(3, 6)))
+    add('LevelOverhangByConstituency:no_overall', lambda: vcore.LevelOverhangByConstituency(vcore.ByConstituency(HA())), _c_calc_const)
+    add('PartyListEvaluator:converter',
+        lambda: vcore.PartyListEvaluator(HA(), vopen.ThresholdOpenList(jump_fraction=Fraction(1, 10)), vconv.Chain([])),
+        _c_partylist_open)
+    add('PropertyBracketer:no_default', lambda: vthr.PropertyBracketer('minority', {True: vthr.AbsoluteThreshold(2)}),
+        lambda rng: call('evaluate', _g_party_votes(rng, props=True)))
+    add('Baldwin:dowdall', lambda: vseq.Baldwin(vconv.RankedToPositionalVotes(vrs.Dowdall())), c_eval_ranked_noshared)
+    add('UnusedVotesDistributor:given_quotas', lambda: vcore.UnusedVotesDistributor([vprop.QuotaDistributor('hare'), HA('sainte_lague')], quota_functions=['droop']),
+        lambda rng: call('evaluate', g_simple(rng, frac=False), g_seats(rng, 4)))
+    add('RangeVoteValidator:checkers',
+        lambda: vvote.RangeVoteValidator(range_checker=vvote.VoteMagnitudeChecker((0, 3), 'range vote value'),
+                                         n_scorings_checker=vvote.VoteMagnitudeChecker((1, 2))), _c_validate_score,
+        model='scoreval', cfg={'nscorings': [1, 2], 'explicit': [], 'dflt': [None, None], 'post': {'kind': 'range', 'bounds': [0, 3]}})
+    add('ApprovalVoteValidator:checker', lambda: vvote.ApprovalVoteValidator(count_checker=vvote.VoteMagnitudeChecker((2, 3))),
+        lambda rng: call('validate', S(rng.sample(CN, rng.randint(0, 4)))))
     # --- rank scorers (method `scores`)
     for nm, mk in [('Dowdall', vrs.Dowdall), ('Geometric', lambda: vrs.Geometric(3)), ('ModifiedBorda', vrs.ModifiedBorda),
                    ('FixedTop', lambda: vrs.FixedTop(3)), ('SequenceBased', lambda: vrs.SequenceBased([5, 3, 1]))]:
@@ -874,6 +912,31 @@ def c_dispatch_flat(rng):
     if rng.random() < 0.4:
         k['max_seats'] = D([(c, rng.randint(1, 3)) for c in cs])
     return call('evaluate', g_simple(rng, cs, frac=False), rng.randint(1, 4), **k)
+
+
+def vquota_mod():
+    import votelib.component.quota as vq
+    return vq
+
+
+def _c_stv_dist(rng, qn):
+    """TransferableVoteDistributor.evaluate called directly: caps none / partial / full x prev_gains none / given"""
+    cands = g_cands(rng, 2, 4)
+    votes = g_ranked(rng, cands, shared=rng.random() < 0.3)
+    if rng.random() < 0.4:            # a candidate holding two or more quotas
+        votes['D'].insert(0, [T([cands[0]]), rng.randint(15, 30)])
+        votes = D({json.dumps(k): (k, v) for k, v in votes['D']}.values())
+    caps = rng.choice(['none', 'partial', 'full'])
+    k = {}
+    if caps == 'partial':
+        k['max_seats'] = D([(c, rng.randint(1, 2)) for c in rng.sample(cands, rng.randint(1, len(cands) - 1))])
+    elif caps == 'full':
+        k['max_seats'] = D([(c, rng.randint(1, 2)) for c in cands])
+    if rng.random() < 0.3:
+        k['prev_gains'] = D([(c, 1) for c in rng.sample(cands, 1)])
+    c = call('evaluate', votes, rng.randint(1, 3), **k)
+    c['_stv'] = caps
+    return c
 
 
 def accepts_n(obj):
@@ -1530,7 +1593,9 @@ REQUIRED_COUNTERS = ['every_class', 'singleton', 'pav_cache_grows', 'pav_small_a
                      'draw:RandomUnrankedBallotSelector.evaluate', 'draw_via:initial_allocation', 'draw_via:direct_transfer',
                      'draw_via:next_count', 'foreign_first', 'model:dispatch', 'raise_first', 'call_after_exception',
                      'call_after_refusal', 'refusal_first', 'prev_gains_then_none', 'larger_then_smaller', 'smaller_after_larger',
-                     'foreign_first:other_parameters', 'hash_alike', 'hash_alike:mersenne', 'hash_alike:neg', 'hash_alike:key_order', 'hash_alike:numtype', 'module_function',
+                     'stv_dist_no_quota_partial_caps', 'stv_dist_no_quota_none_caps', 'stv_dist_no_quota_full_caps',
+                     'stv_dist_quota_partial_caps', 'stv_dist_quota_none_caps', 'stv_dist_quota:noquota', 'stv_dist_quota:droopname',
+                     'stv_dist_quota:harecallable', 'stv_dist_quota:constant', 'foreign_first:other_parameters', 'hash_alike', 'hash_alike:mersenne', 'hash_alike:neg', 'hash_alike:key_order', 'hash_alike:numtype', 'module_function',
                      'ctor_param_nondefault', 'names:int0', 'names:empty0', 'names:person', 'shared_rank3', 'zero_votes2',
                      'name_clash', 'prev_absent_party'] + ['num:' + m for m in NUM_MODES] + ['foreign_first:' + w for w in
                                                                                 ('TieBreaking', 'PostConverted', 'PreConverted', 'FixedSeatCount')]
@@ -1551,6 +1616,9 @@ def _tag_calls(TG, targets, calls, tags):
             tags.append('prev_gains_given')
             if any(isinstance(v, dict) and 'D' in v for _, v in k['prev_gains'].get('D', [])):
                 tags.append('nested_prev_gains')
+        if t.get('stv_grid') and c.get('_stv'):
+            tags.append(f"stv_dist_{'no_quota' if t['stv_grid'] == 'noquota' else 'quota'}_{c['_stv']}_caps")
+            tags.append('stv_dist_quota:' + t['stv_grid'])
         if t.get('seed') is not None:
             tags.append('seeded_random')
         if t.get('singleton'):
@@ -1654,6 +1722,11 @@ def generate(rng, tier):
     # (5d) state between calls, per target: after an exception / refusal, with prev_gains first, larger then smaller
     yield from _state_directed(rng, TG, names if tier == 'quick' else names * 4)
     yield from _stv_refusals(rng, TG, 20 if tier == 'quick' else 200)
+    # (5d') the transferable vote distributor called directly: every quota kind x caps none / partial / full, several calls
+    for name in [n for n in names if TG[n].get('stv_grid')]:
+        for _ in range(8 if tier == 'quick' else 60):
+            calls = [dict(TG[name]['gen'](rng), t=0) for _ in range(rng.randint(2, 4))]
+            yield _mk([name], calls, _tag_calls(TG, [name], calls, ['stv_grid']))
     # (5e) inputs that hash alike or are equal up to key order, against an isolated reference
     yield from _hash_alike(rng, TG, 120 if tier == 'quick' else 800)
     # (6) a class found by reflection that the table does not know: try it with no arguments on simple votes
